@@ -17,6 +17,9 @@ SOLVERS = {
     'cvc5': ['/usr/bin/cvc5', '--strings-exp', '--dt-nested-rec', '--produce-models', '-q'],
     'cvc5-fmf': ['/usr/bin/cvc5', '--strings-exp', '--dt-nested-rec', '--produce-models', '-q',
                  '--strings-fmf'],
+    # quantifier-free finite-scope (G) queries are very sensitive to the decision heuristic
+    'cvc5-int': ['/usr/bin/cvc5', '--strings-exp', '--dt-nested-rec', '--produce-models', '-q',
+                 '--decision=internal'],
     'z3new': ['/usr/local/bin/z3-new', '-smt2'],
     'z3old': ['/usr/bin/z3', '-smt2'],
 }
